@@ -21,6 +21,7 @@ package arvados
 
 import (
 	"bytes"
+	"encoding/json"
 	"crypto/md5"
 	"errors"
 	"fmt"
@@ -197,12 +198,42 @@ type vcfsAPI struct {
 func (a *vcfsAPI) RequestAndDecode(dst interface{}, method, path string, body io.Reader, params interface{}) error {
 	a.mu.Lock()
 	defer a.mu.Unlock()
-	if m, ok := params.(map[string]interface{}); ok {
-		if c, ok := m["collection"].(map[string]string); ok {
-			a.saved = append(a.saved, c["manifest_text"])
+	// whatever shape the parameters have: the first "manifest_text" string anywhere in them
+	if b, err := json.Marshal(params); err == nil {
+		var v interface{}
+		if json.Unmarshal(b, &v) == nil {
+			if txt, ok := vcfsFindManifestText(v); ok {
+				a.saved = append(a.saved, txt)
+			}
 		}
 	}
 	return nil
+}
+
+func vcfsFindManifestText(v interface{}) (string, bool) {
+	switch v := v.(type) {
+	case map[string]interface{}:
+		if s, ok := v["manifest_text"].(string); ok {
+			return s, true
+		}
+		keys := make([]string, 0, len(v))
+		for k := range v {
+			keys = append(keys, k)
+		}
+		sort.Strings(keys)
+		for _, k := range keys {
+			if s, ok := vcfsFindManifestText(v[k]); ok {
+				return s, true
+			}
+		}
+	case []interface{}:
+		for _, x := range v {
+			if s, ok := vcfsFindManifestText(x); ok {
+				return s, true
+			}
+		}
+	}
+	return "", false
 }
 
 // ---------------------------------------------------------------------------------------------
@@ -271,6 +302,7 @@ type vcfsRun struct {
 	events  []vcfsEvent
 	names   map[string]string // abstract name -> concrete name (C09 "bytes" mode)
 	dead    bool              // a panic or hang was recorded: stop
+	hung    bool              // ... it was a hang
 	origLoc map[string]bool   // hash+size of blocks of the original manifest
 	marks   []int             // start / end offsets of recent writes and truncates (see posReads)
 	mu      sync.Mutex
@@ -289,30 +321,10 @@ func (r *vcfsRun) cname(n string) string {
 	return n
 }
 
-// path renders an abstract path; decorations do not change its meaning.
+// path renders an abstract path in its canonical relative form ("d/a"; "." for the root): the
+// statement says nothing about "//", "/./" or a leading "/", so no judged call uses them.
 func (r *vcfsRun) path(p []string) string {
-	if len(p) == 0 {
-		return []string{"", "/", ".", "./"}[r.rng.Intn(4)]
-	}
-	cp := make([]string, len(p))
-	for i, n := range p {
-		cp[i] = r.cname(n)
-	}
-	sep := "/"
-	switch r.rng.Intn(8) {
-	case 0:
-		sep = "//"
-	case 1:
-		sep = "/./"
-	}
-	s := strings.Join(cp, sep)
-	switch r.rng.Intn(6) {
-	case 0:
-		s = "/" + s
-	case 1:
-		s = "./" + s
-	}
-	return s
+	return r.plainPath(p)
 }
 
 // guard runs f with panic recovery and a watchdog.  A panic is recorded as an event the contract
@@ -346,8 +358,9 @@ func (r *vcfsRun) guard(what string, f func()) {
 			return
 		case <-t.C:
 			if vcfsParkedForMinutes(gid) {
-				r.log(vcfsEvent{"ev": "hang", "op": what})
+				r.log(vcfsEvent{"ev": "hang", "op": what, "state": vcfsGoHeader(gid)})
 				r.dead = true
+				r.hung = true
 				return
 			}
 			t.Reset(30 * time.Second)
@@ -363,6 +376,17 @@ func vcfsGoID() string {
 		return f[1]
 	}
 	return "?"
+}
+
+func vcfsGoHeader(gid string) string {
+	buf := make([]byte, 1<<22)
+	buf = buf[:runtime.Stack(buf, true)]
+	for _, ln := range strings.Split(string(buf), "\n") {
+		if strings.HasPrefix(ln, "goroutine "+gid+" [") {
+			return ln
+		}
+	}
+	return ""
 }
 
 // vcfsParkedForMinutes reports whether the runtime shows goroutine gid waiting (not running or
@@ -1108,10 +1132,19 @@ func (r *vcfsRun) randOp() vcfsOp {
 		case 2:
 			off = rng.Intn(2*bs+1) - 2*bs + bs/2
 		}
-		if rng.Intn(30) == 0 {
-			off = -off - 1
+		h := anyH()
+		// never seek to a negative offset (not among the statement's failure causes): ask the
+		// handle where it is (Seek(0, current) changes nothing) and clamp
+		if f := r.handles[h]; f != nil && wh != 0 {
+			base := f.Size()
+			if wh == 1 {
+				base, _ = f.Seek(0, io.SeekCurrent)
+			}
+			if int(base)+off < 0 {
+				off = -int(base)
+			}
 		}
-		return vcfsOp{Op: "seek", H: anyH(), Off: off, Wh: wh}
+		return vcfsOp{Op: "seek", H: h, Off: off, Wh: wh}
 	case x < 72:
 		n := rng.Intn(maxpos + 1)
 		if rng.Intn(4) == 0 {
